@@ -216,6 +216,31 @@ def afmLine (t : List String) : Option String :=
         | some i => pure (line ++ s!" | {i.variables.lastRefUpdateTs} {i.variables.lastMajorSwapTs} {i.variables.volRef} {i.variables.groupIndexRef} {i.variables.volAcc}")
         | none => none
 
+/-- `sdkaf`: the adaptive-fee variable rules, function by function (C20 / C14):
+    sdkaf cur now fp dp rf cf mx gs mj lr lm vr gr va g2 pre post -/
+def sdkafLine (t : List String) : Option String :=
+  if t.length ≠ 17 then none else do
+  let cur ← (t.getD 0 "").toInt?
+  let n ← natArgs ((t.drop 1).take 11)
+  let gr ← (t.getD 12 "").toInt?
+  let va ← (t.getD 13 "").toNat?
+  let g2 ← (t.getD 14 "").toInt?
+  let pre ← (t.getD 15 "").toNat?
+  let post ← (t.getD 16 "").toNat?
+  let g := fun i => n.getD i 0
+  let now := g 0
+  let c : AfConstants := { filterPeriod := g 1, decayPeriod := g 2, reductionFactor := g 3, controlFactor := g 4, maxVolAcc := g 5,
+                           groupSize := g 6, majorSwapThresholdTicks := g 7 }
+  let v : AfVariables := { lastRefUpdateTs := g 8, lastMajorSwapTs := g 9, volRef := g 10, groupIndexRef := gr, volAcc := va }
+  if c.groupSize = 0 then none else
+  match v.updateReference (cur / (c.groupSize : Int)) now c with
+  | .error e => pure ("err " ++ e.name)
+  | .ok v1 =>
+    let v2 := v1.updateVolAcc g2 c
+    match v2.updateMajorSwapTs pre post now c with
+    | .error e => pure ("err " ++ e.name)
+    | .ok v3 => pure s!"ok {v3.lastRefUpdateTs} {v3.lastMajorSwapTs} {v3.volRef} {v3.groupIndexRef} {v3.volAcc}"
+
 /-- `calculate_modify_tick_array`: (size change in ticks, rent units moved position → array) -/
 def tickArrayUpdate (isVar : Bool) (posLiq updLiq : Nat) (tickInit updInit : Bool) : Int × Int :=
   if !isVar then (0, 0)
@@ -404,6 +429,9 @@ partial def loop (h : IO.FS.Stream) (out : IO.FS.Stream) (hist : Option HistStat
     loop h out hist bm dyn snap
   | "afm" :: rest =>
     out.putStrLn ((afmLine rest).getD "bad-op")
+    loop h out hist bm dyn snap
+  | "sdkaf" :: rest =>
+    out.putStrLn ((sdkafLine rest).getD "bad-op")
     loop h out hist bm dyn snap
   | "pmod" :: rest =>
     out.putStrLn ((pmodLine rest).getD "bad-op")
